@@ -5,3 +5,4 @@ import MW.Props.C11
 #print axioms MW.Props.C11.reward_refused_fee_exceeds
 #print axioms MW.Props.C11.fee_withdraw
 #print axioms MW.Props.C11.C11_split_world
+#print axioms MW.Props.C11.C11_fee_withdraw_world
